@@ -230,7 +230,11 @@ class CompositeHexagonalAperture:
             # and polynomials which is the polynomial base for each segment,
             # with the same duplicate note as the grids
             for x, y in self.local_coords:
-                corner = (float(x[0, 0]), float(y[0, 0]))  # for Cupy support
+                if x.size == 0:
+                    # a segment that lies entirely outside the grid has an empty window
+                    corner = (None, None)
+                else:
+                    corner = (float(x[0, 0]), float(y[0, 0]))  # for Cupy support
                 key = (*corner, *x.shape)
                 if key not in gridcache:
                     r, t = cart_to_polar(x, y)
@@ -248,7 +252,11 @@ class CompositeHexagonalAperture:
         else:
             # assume x, y are the kwargs
             for x, y in self.local_coords:
-                corner = (float(x[0, 0]), float(y[0, 0]))  # for Cupy support
+                if x.size == 0:
+                    # a segment that lies entirely outside the grid has an empty window
+                    corner = (None, None)
+                else:
+                    corner = (float(x[0, 0]), float(y[0, 0]))  # for Cupy support
                 key = (*corner, *x.shape)
                 if key not in gridcache:
                     xx = x / normalization_radius[0]
